@@ -12,6 +12,9 @@ was copied, which text was written or appended):
                     reorder), junk injection, check-breaking values; a share with raw
                     character mutations on top
   MERGE-files       add() / remove() / unknown file types
+  MERGE-inc-sequence 2-4 consecutive .inc comparisons in this process where an earlier file
+                    leaves `#filter emptyLines` switched on; each pair's expected staging is
+                    computed from its own two texts by a line based reader written here
   MERGE-findings    the dedicated small streams of the known findings
   SPLICE-spec-<fmt> the specification of C04_splice (characters outside every span) executed
                     against what the implementation wrote, for well-placed skip lists
@@ -64,6 +67,7 @@ SIG_INI = "ini-junk-after-section-joins-comment-line"
 
 WORDS = ["alpha", "beta", "gamma", "delta", "uno", "zwei", "trois", "x", "Zed", "café",
          "あい", "it", "is", "ok"]
+FTL_FOREIGN_SPACE = ["\u3000", "\u00a0", "\u202f", "\u2028", "\u0085", "\x0b", "\x0c", "\u2003", "\x1f"]
 KEYS = ["title", "label", "menu", "tab", "ok", "name", "open", "close", "save", "help",
         "about", "quit", "file", "edit", "view", "zoom"]
 
@@ -256,6 +260,12 @@ def junk_text(rng, fmt):
     if fmt == "ini":
         return rng.choice(["junk text %d" % n, "no equals sign"])
     if fmt == "ftl":
+        if rng.random() < 0.35:
+            # white space of Unicode (and of `\s`) that Fluent does not treat as blank: it is
+            # part of the unparsed content, at either end of the junk line
+            ws = rng.choice(FTL_FOREIGN_SPACE)
+            body = rng.choice(["junk here %d" % n, "続きの行", "À propos de quoi", "bad id$ = x"])
+            return rng.choice([ws + body, body + ws, ws + body + ws, body + " " + ws + "?" + ws])
         return rng.choice(["junk here %d" % n, "= no id", "bad id$ = x"])
     if fmt == "po":
         return rng.choice(["junk text %d" % n, 'msgstr "orphan"', "garbage"])
@@ -357,7 +367,8 @@ MUT_TOKENS = {
     "properties": ["\\", "=", ":", "#", "\n", " ", "%", "%S", "\\u", "!", "\t", "\r"],
     "dtd": ["<", ">", '"', "'", "&", "<!ENTITY ", "<!--", "-->", "\n", "%", ";", " ", "﻿"],
     "ini": ["[", "]", "=", "\n", ";", "#", " "],
-    "ftl": ["=", "\n", " ", ".", "{", "}", "$", "#", "-", "    .x = y", "*[", "->"],
+    "ftl": ["=", "\n", " ", ".", "{", "}", "$", "#", "-", "    .x = y", "*[", "->",
+            "\u3000", "\u00a0", "\u202f", "\x0c", "\n\u3000x", "y\u00a0\n"],
     "po": ['"', "\\", "\n", "msgid ", "msgstr ", "msgctxt ", "#", " "],
     "android": ["<", ">", "&", "'", '"', "\\", "%", "<!--", "\n"],
     "inc": ["#", "#define ", "\n", " ", "\n\n", "#filter emptyLines\n"],
@@ -1080,6 +1091,165 @@ def suite_files(chk, env, model, n):
         chk.correspond("MERGE-files", cases, impls, model.call(reqs))
 
 
+# ---------------------------------------------------- .inc sequences -------
+def inc_reading(text):
+    """An independent, line based reading of a defines file (no parser of the package):
+    -> (keys in order, clean).  Blank lines are allowed only between `#filter emptyLines`
+    and `#unfilter emptyLines` of THIS text and never as the first line; every other line
+    is a define, a `# ` comment or a preprocessor instruction."""
+    filtering = False
+    keys, clean = [], True
+    lines = text.split("\n")
+    if lines and lines[-1] == "":
+        lines.pop()
+    for no, line in enumerate(lines):
+        if line == "":
+            if no == 0 or not filtering:
+                clean = False
+            continue
+        if line.startswith("#define ") or line.startswith("#define\t"):
+            rest = line[len("#define"):].lstrip(" \t")
+            k = ""
+            while k != rest and (rest[len(k)].isalnum() or rest[len(k)] == "_"):
+                k += rest[len(k)]
+            if k and (len(rest) == len(k) or rest[len(k)] in " \t"):
+                keys.append(k)
+                continue
+            clean = False
+            continue
+        if line.startswith("# "):
+            continue
+        if line == "#filter emptyLines":
+            filtering = True
+            continue
+        if line == "#unfilter emptyLines":
+            filtering = False
+            continue
+        clean = False
+    return keys, clean
+
+
+def gen_inc_pair(rng, role):
+    """-> (reference text, localization text).  role: 'leave-on' (a file of the pair ends with
+    the filter switched on), 'blank' (a localization with blank lines and no filter of its own),
+    'any'"""
+    n = rng.randint(1, 4)
+    keys = ["K%d_%s" % (i, rng.choice(KEYS).upper()) for i in range(n)]
+
+    def body(vals, blanks, comments=True):
+        out = []
+        for i, k in enumerate(keys):
+            if comments and rng.random() < 0.2:
+                out.append("# " + words(rng, 1, 2))
+            out.append("#define " + k + " " + vals[i])
+            if blanks and i < n - 1 and rng.random() < blanks:
+                out.append("")
+        return out
+    rvals = [words(rng, 1, 3) for _ in keys]
+    lvals = [v if rng.random() < 0.3 else words(rng, 1, 3) for v in rvals]
+    if role == "leave-on":
+        kind = rng.choice(["l10n-lost-unfilter", "ref-open", "both-open"])
+        ref = ["#filter emptyLines"] + body(rvals, 0.6)
+        l10n = ["#filter emptyLines"] + body(lvals, 0.6)
+        if kind != "ref-open" and kind != "both-open":
+            ref.append("#unfilter emptyLines")
+        if kind == "ref-open":
+            # the localization does not filter at all but has blank lines: not clean
+            if rng.random() < 0.5:
+                l10n = body(lvals, 0.9) if n > 1 else body(lvals, 0) + [""]
+                if "" not in l10n:
+                    l10n.append("")
+            else:
+                l10n.append("#unfilter emptyLines")
+    elif role == "blank":
+        filt = rng.random() < 0.25
+        ref = (["#filter emptyLines"] if filt else []) + body(rvals, 0.5 if filt else 0) + \
+            (["#unfilter emptyLines"] if filt else [])
+        l10n = body(lvals, 0.9)
+        if "" not in l10n:
+            l10n.insert(rng.randint(1, len(l10n)), "")
+    else:
+        kind = rng.choice(["balanced", "plain", "plain-missing", "leading-blank", "balanced-blank-outside"])
+        if kind == "balanced":
+            ref = ["#filter emptyLines"] + body(rvals, 0.5) + ["#unfilter emptyLines"]
+            l10n = ["#filter emptyLines"] + body(lvals, 0.5) + ["#unfilter emptyLines"]
+        elif kind == "plain":
+            ref, l10n = body(rvals, 0), body(lvals, 0)
+        elif kind == "plain-missing":
+            ref, l10n = body(rvals, 0) + ["#define EXTRA_REF x"], body(lvals, 0)
+        elif kind == "leading-blank":
+            ref = ["#filter emptyLines"] + body(rvals, 0.5) + ["#unfilter emptyLines"]
+            l10n = ["", "#filter emptyLines"] + body(lvals, 0.5) + ["#unfilter emptyLines"]
+        else:
+            ref = ["#filter emptyLines"] + body(rvals, 0.5) + ["#unfilter emptyLines"]
+            l10n = ["#filter emptyLines"] + body(lvals, 0.5) + ["#unfilter emptyLines", "",
+                                                                 "#define OBSOLETE_L10N y"]
+    return "\n".join(ref) + "\n", "\n".join(l10n) + "\n"
+
+
+def run_inc_sequence(chk, env, pairs, stream="inc-sequence"):
+    """consecutive compare-with-merge runs of .inc pairs in this process; the expected staging
+    of each pair follows from that pair's own two texts (copy-only rule)"""
+    out = []
+    for idx, (ref_text, l10n_text) in enumerate(pairs):
+        ref_bytes, l10n_bytes = ref_text.encode("utf-8"), l10n_text.encode("utf-8")
+        case = {"format": "inc", "op": "sequence", "stream": stream, "index": idx,
+                "pairs": [list(p) for p in pairs]}
+        r = run_pair(env, "inc", ref_bytes, l10n_bytes)
+        rkeys, rclean = inc_reading(ref_text)
+        lkeys, lclean = inc_reading(l10n_text)
+        if not rclean or len(rkeys) != len(set(rkeys)):
+            raise RuntimeError("harness bug: .inc reference not clean: %r" % ref_text)
+        fails = []
+        if not r.untouched:
+            fails.append(("inputs-or-outside-modified", None))
+        if r.listing not in ([], [r.mergep]):
+            fails.append(("wrote-outside-merge-path", r.listing))
+        if r.trace_problem:
+            fails.append(("unexpected-file-effects", r.trace_problem))
+        if r.exc:
+            fails.append(("compare-raised", r.exc))
+        clean = lclean and set(rkeys) <= set(lkeys) and len(lkeys) == len(set(lkeys))
+        want = l10n_bytes if clean else ref_bytes
+        if r.merged != want:
+            fails.append(("copy-only-rule-by-construction",
+                          {"localization_clean": clean, "staged": repr(r.merged), "expected": repr(want)}))
+        if r.merged is not None:
+            skeys, sclean = inc_reading(r.merged.decode("utf-8"))
+            if not sclean or not set(rkeys) <= set(skeys):
+                fails.append(("staged-inc-has-unparsed-content-or-missing",
+                              {"staged": repr(r.merged)}))
+        reported_clean = not r.col.errors() and not r.col.missing()
+        if reported_clean != clean:
+            fails.append(("first-report-differs-from-construction",
+                          {"reported_clean": reported_clean, "by_construction": clean,
+                           "errors": r.col.errors()[:3]}))
+        for sig, detail in fails:
+            chk.fail(sig, case, detail)
+        out.append((case, r, fails))
+    return out
+
+
+def suite_inc_sequences(chk, env, model, n):
+    rng = chk.rng
+    cases, impls, reqs = [], [], []
+    for i in range(n):
+        first = gen_inc_pair(rng, "leave-on")
+        roles = rng.choice([["blank"], ["blank", "any"], ["any", "blank"], ["blank", "blank"]])
+        pairs = [first] + [gen_inc_pair(rng, role) for role in roles]
+        chk.count(("inc-seq", json.dumps(pairs)))
+        chk.hist("inc_sequence_len", len(pairs))
+        for case, r, fails in run_inc_sequence(chk, env, pairs):
+            if len(r.calls) == 1:
+                cases.append(case)
+                impls.append(r.impl)
+                reqs.extend(model_requests(r))
+        if i == 0:
+            chk.sample({"suite": "MERGE-inc-sequence", "pairs": pairs})
+    if model:
+        chk.correspond("MERGE-inc-sequence", cases, impls, model.call(reqs))
+
+
 # -------------------------------------------------------- direct calls ------
 class FakeEntity:
     def __init__(self, key, all_, span=None):
@@ -1348,6 +1518,7 @@ def run(chk, runner_ok):
             suite_format(chk, env, model, fmt, int(total * s))
         suite_unknown(chk, env, model, int(total * 0.03))
         suite_files(chk, env, model, int(total * 0.05))
+        suite_inc_sequences(chk, env, model, int(total * 0.02))
         suite_findings(chk, env, model)
     finally:
         env.close()
@@ -1367,6 +1538,14 @@ def replay(chk, path):
             if "format" not in c:
                 impl, action, merged, req, exc = direct_case(env, c)
                 print("direct case", c, "impl", impl)
+                continue
+            if c.get("op") == "sequence":
+                chk2 = common.Check(chk.prop, chk.tier, chk.seed)
+                chk2.known = []
+                for case, r, fails in run_inc_sequence(chk2, env, [tuple(p) for p in c["pairs"]]):
+                    print("pair", case["index"], json.dumps(case["pairs"][case["index"]]),
+                          "staged", r.merged, "oracle", fails)
+                    rc |= bool(fails)
                 continue
             l10n = None if c.get("l10n_hex") is None else bytes.fromhex(c["l10n_hex"])
             r = run_pair(env, c["format"], c["ref"].encode("utf-8"), l10n, c.get("op", "compare"))
